@@ -6,15 +6,23 @@ import os
 import lib
 from lib import gz, gnat, gbool, gstr, glist
 
-REQ = "From CfdmV Require Import Common.Base C10.Model C10.Run.\nOpen Scope string_scope."
+REQ = "From CfdmV Require Import Common.Base C10.Model C10.Fs C10.Ident C10.Run.\nOpen Scope string_scope."
+MODEL_FILES = ["Model", "Fs", "Ident", "Run"]
 BASES = ["ef0", "ef6", "dsgc", "dsgi", "gath", "ef1"]
-NAME_ID = {"X": 1, "Y": 2, "LX": 3, "Z": 4, "Xrel": 1}
 COPY_VARIANTS = ["copy", "squeeze", "transpose", "insert_dimension", "subspace_all", "subspace_part",
                  "apply_masking", "uncompress", "deepcopy"]
 TOUCH_VARIANTS = ["to_memory", "cons_to_memory", "assign", "array", "text", "equals", "inner_to_memory", "inner_to_memory"]
 EARLY_FAULTS = ["hdf5_chunks", "fmt", "var_attrs", "file_desc"]
 LATE_FAULTS = ["endian", "compress99", "lsd", "datatype"]
 N_HARMLESS = 17
+# ways of spelling a file name (drive/c10.py spell_of)
+VIAS_X = ["direct"] * 4 + ["filelink", "relative", "alias", "alias", "dotdot", "dslash", "scratch", "alias_scratch"]
+VIAS_Y = ["direct", "direct", "direct", "alias", "scratch"]
+TVIAS = ["direct", "direct", "direct", "filelink", "relative", "alias", "alias", "dotdot", "dslash", "scratch",
+         "alias_scratch"]
+COMPONENT_KINDS = ["interior_ring", "interior_ring", "node_count", "part_node_count", "bounds", "count", "index",
+                   "list", "cell_measure", "domain_ancillary", "coordref"]
+TRACKED = ("X", "Y", "Z", "E", "EN", "V", "DV", "W", "LX")
 
 
 # ---- Gallina printers ------------------------------------------------------------
@@ -27,6 +35,10 @@ def g_names(ns):
         if not isinstance(n, int):
             raise BadName(str(n))
     return glist(ns, gz)
+
+
+def g_path(p):
+    return glist(p, gz)
 
 
 def g_leaf(lf):
@@ -89,6 +101,8 @@ def g_op(o):
         return f"(OSetBounds {gnat(o[1])} {gstr(o[2])} {gnat(o[3])} {gstr(o[4])})"
     if k == "set_bounds_data":
         return f"(OSetBoundsData {gnat(o[1])} {gstr(o[2])} {gnat(o[3])} {g_sel(o[4])})"
+    if k == "new_cons":
+        return f"(ONewCons {gnat(o[1])} {gstr(o[2])})"
     if k == "touch":
         return f"(OTouch {gnat(o[1])})"
     raise ValueError(o)
@@ -98,21 +112,37 @@ def g_err(e):
     return "None" if e is None else f"(Some {e})"
 
 
+def eff_code(b, a):
+    return 0 if a == b else (2 if a is None else 1)
+
+
 def effects(r):
-    out = []
-    for nm in ("X", "Y", "LX", "Z"):
-        b, a = r["before"][nm], r["after"][nm]
-        code = 0 if a == b else (2 if a is None else 1)
-        out.append((NAME_ID[nm], code))
-    return out
+    """per tracked directory entry: 0 untouched, 1 altered or created, 2 absent now"""
+    return {nm: eff_code(r["before"][nm], r["after"][nm]) for nm in TRACKED}
+
+
+def g_effects(r):
+    eff = effects(r)
+    return glist([(r["tracked_paths"][nm], eff[nm]) for nm in TRACKED], lambda p: f"({g_path(p[0])}, {gz(p[1])})")
+
+
+def g_node(n):
+    return f"(NFile {gz(n[1])} 0%nat)" if n[0] == "file" else f"(NLink {g_path(n[1])})"
 
 
 def g_fs(r):
-    regs = [(NAME_ID[nm], 100 + NAME_ID[nm]) for nm in ("X", "Y", "Z")
-            if r["before"][nm] is not None and not r["links_before"][nm]]
-    links = [(3, 1)] if r["links_before"]["LX"] else []
-    return ("(mkFS " + glist(regs, lambda p: f"({gz(p[0])}, ({gz(p[1])}, 0%nat))") + " "
-            + glist(links, lambda p: f"({gz(p[0])}, {gz(p[1])})") + ")")
+    for i, _p in r["spell"]:
+        if not isinstance(i, int):
+            raise BadName(str(i))
+    spell = glist(r["spell"], lambda ip: f"({gz(ip[0])}, {g_path(ip[1])})")
+    nodes = glist(r["nodes"], lambda kn: f"({g_path(kn[0])}, {g_node(kn[1])})")
+    return f"(mkFS {spell} {nodes})"
+
+
+def g_target(t):
+    if not isinstance(t["name"], int):
+        raise BadName(str(t["name"]))
+    return f"(mkT {gz(t['name'])} {g_path(t['path'])})"
 
 
 def g_wopts(case, r):
@@ -127,51 +157,78 @@ def literal(case, r):
     init = glist(r["init"], lambda t: f"({g_field(t['tree'])}, {g_names(t['aggs'][0])}, {g_names(t['aggs'][1])})")
     steps = glist([s for s in r["steps"] if "op" in s],
                   lambda s: f"({g_op(s['op'])}, {gnat(s['reg'])}, {g_field(s['tree'])}, {g_names(s['orig'])}, {g_names(s['files'])})")
-    effs = glist(effects(r), lambda p: f"({gz(p[0])}, {gz(p[1])})")
     err = r["error"][0] if r["error"] else None
-    w = (f"({g_fs(r)}, {glist(r['sel'], gnat)}, {gz(NAME_ID[case['write']['target']])}, "
-         f"{g_wopts(case, r)}, {effs}, {g_err(err)})")
+    efsel = glist(r["efsel"], lambda t: f"({gnat(t[0])}, {gstr(t[1])}, {glist(t[2], gstr)})")
+    ext = "None" if r["ext"] is None else f"(Some {g_target(r['ext'])})"
+    w = (f"({g_fs(r)}, {glist(r['sel'], gnat)}, {efsel}, {g_target(r['target'])}, {g_wopts(case, r)}, {ext}, "
+         f"{g_effects(r)}, {g_err(err)})")
     return f"({init}, {steps}, {w})"
 
 
+def g_props(p):
+    return "None" if p is None else "(Some " + glist(p, lambda kv: f"({gz(kv[0])}, {gz(kv[1])})") + ")"
+
+
+def g_gobs(rows):
+    return glist(rows, lambda row: f"({g_props(row[0])}, {g_props(row[1])}, {g_props(row[2])})")
+
+
+def ident_literal(case, r):
+    reached = r["fault"][0] in ("none", "late") and not (r["error"] and r["fault"][0] == "none")
+    return (f"({glist(r['geo']['before'], g_gobs)}, {glist(r['geo']['after'], g_gobs)}, true, "
+            f"{gbool(r['error'] is not None)}, {gbool(reached and case['write']['mode'] == 'w')})")
+
+
 # ---- generators --------------------------------------------------------------------
+def rand_transplant(rng, nregs):
+    return {"op": "set_data", "dst": rng.randrange(nregs), "src": rng.randrange(nregs),
+            "sel": rng.choice(["field", "field", "cons", "bounds", "ring"]), "j": rng.randrange(6),
+            "how": rng.choice(["direct", "direct", "wrapped", "source", "copy"])}
+
+
+def rand_comp_prop(rng, nregs, i=None):
+    return {"op": "comp_prop", "i": rng.randrange(nregs) if i is None else i, "kind": rng.choice(COMPONENT_KINDS),
+            "j": rng.randrange(4), "val": rng.randrange(3), "create": rng.random() < 0.3,
+            "which": "ncvar" if rng.random() < 0.25 else "prop", "name": rng.choice(["long_name", "long_name", "comment"])}
+
+
 def rand_op(rng, nregs, transplant_bias=0.0):
     r = rng.random()
     i = rng.randrange(nregs)
     if r < transplant_bias:
-        return {"op": "set_data", "dst": rng.randrange(nregs), "src": rng.randrange(nregs),
-                "sel": rng.choice(["field", "field", "cons", "bounds", "ring"]), "j": rng.randrange(6),
-                "how": rng.choice(["direct", "direct", "wrapped", "source", "copy"])}
+        return rand_transplant(rng, nregs)
     r = rng.random()
-    if r < 0.30:
+    if r < 0.27:
         return {"op": "copy", "i": i, "variant": rng.choice(COPY_VARIANTS)}
-    if r < 0.36:
+    if r < 0.32:
         return {"op": "get_domain", "i": i, "variant": rng.choice(["call", "attr"])}
-    if r < 0.42:
+    if r < 0.37:
         return {"op": "field_source", "i": i, "copy": rng.random() < 0.7}
-    if r < 0.50:
+    if r < 0.44:
         return {"op": "convert", "i": i, "j": rng.randrange(6), "full": rng.random() < 0.6}
-    if r < 0.56:
+    if r < 0.49:
         return {"op": "new_field"}
-    if r < 0.66:
-        return {"op": "set_data", "dst": rng.randrange(nregs), "src": rng.randrange(nregs),
-                "sel": rng.choice(["field", "field", "cons", "bounds", "ring"]), "j": rng.randrange(6),
-                "how": rng.choice(["direct", "direct", "wrapped", "source", "copy"])}
-    if r < 0.69:
+    if r < 0.58:
+        return rand_transplant(rng, nregs)
+    if r < 0.61:
         return {"op": "del_data", "i": i}
-    if r < 0.75:
+    if r < 0.66:
         return {"op": "del_construct", "i": i, "j": rng.randrange(6)}
-    if r < 0.81:
+    if r < 0.72:
         return {"op": "set_construct", "dst": rng.randrange(nregs), "src": rng.randrange(nregs), "j": rng.randrange(6)}
-    if r < 0.84:
+    if r < 0.75:
         return {"op": "del_bounds", "i": i, "j": rng.randrange(4)}
-    if r < 0.88:
+    if r < 0.79:
         return {"op": "set_bounds", "dst": rng.randrange(nregs), "src": rng.randrange(nregs),
                 "j": rng.randrange(4), "j2": rng.randrange(4)}
-    if r < 0.92:
+    if r < 0.83:
         return {"op": "set_bounds_data", "dst": rng.randrange(nregs), "src": rng.randrange(nregs),
                 "j": rng.randrange(4), "j2": rng.randrange(4), "sel": rng.choice(["bounds", "cons", "field"]),
                 "how": rng.choice(["direct", "wrapped", "source"])}
+    if r < 0.89:
+        return rand_comp_prop(rng, nregs)
+    if r < 0.93:
+        return {"op": "make_external", "i": i, "j": rng.randrange(2), "new": rng.random() < 0.4, "val": rng.randrange(3)}
     return {"op": "touch", "i": i, "variant": rng.choice(TOUCH_VARIANTS), "j": rng.randrange(6)}
 
 
@@ -190,9 +247,32 @@ def rand_history(rng, maxlen, bias):
     return ops, nregs
 
 
-def rand_write(rng, nregs, last_written=None):
+def rand_target(rng, w):
     r = rng.random()
-    target = "X" if r < 0.45 else "Y" if r < 0.58 else "LX" if r < 0.73 else "Xrel" if r < 0.80 else "Z"
+    if r < 0.45:
+        w["target"], w["tvia"] = "X", rng.choice(TVIAS)
+    elif r < 0.57:
+        w["target"], w["tvia"] = "Y", rng.choice([v for v in TVIAS if v != "filelink"])
+    elif r < 0.80:
+        w["target"], w["tvia"] = "Z", rng.choice([v for v in TVIAS if v != "filelink"])
+    elif r < 0.86:
+        w["target"], w["tvia"] = "E", rng.choice(["direct", "alias", "scratch"])
+    elif r < 0.90:
+        w["target"], w["tvia"] = "V", "direct"
+    elif r < 0.95:
+        w["target"], w["tvia"] = "DV", "deep"    # '..' after a link to a deeper directory: lexically V
+    else:
+        w["target"], w["tvia"] = "X", "deep"     # physically X, lexically a new file one level up
+    return w
+
+
+def rand_external(rng):
+    r = rng.random()
+    key = "E" if r < 0.5 else "EN" if r < 0.7 else "X" if r < 0.85 else "Y" if r < 0.95 else "Z"
+    return {"key": key, "via": rng.choice(["direct", "direct", "alias", "dotdot", "dslash", "scratch", "alias_scratch"])}
+
+
+def rand_write(rng, nregs, last_written=None, p_ext=0.08):
     r = rng.random()
     mode = "w" if r < 0.78 else "a" if r < 0.90 else "r+" if r < 0.96 else "x"
     r = rng.random()
@@ -202,64 +282,124 @@ def rand_write(rng, nregs, last_written=None):
         regs = [last_written]
     if rng.random() < 0.15:
         regs.append(rng.randrange(nregs))
-    return {"regs": regs, "target": target, "mode": mode, "overwrite": rng.random() < 0.8,
-            "fault": fault, "as_list": rng.random() < 0.3, "harmless": rng.randrange(N_HARMLESS) if rng.random() < 0.5 else 0}
+    w = {"regs": regs, "mode": mode, "overwrite": rng.random() < 0.8,
+         "fault": fault, "as_list": rng.random() < 0.3, "harmless": rng.randrange(N_HARMLESS) if rng.random() < 0.5 else 0}
+    if rng.random() < p_ext:
+        w["external"] = rand_external(rng)
+    return rand_target(rng, w)
 
 
-def written_reg(ops):
-    """the register the last operation wrote (as the driver will see it), if it can be told statically"""
-    return None
+def W(regs, target, tvia="direct", mode="w", overwrite=True, fault=None, external=None):
+    w = {"regs": regs, "target": target, "tvia": tvia, "mode": mode, "overwrite": overwrite, "fault": fault}
+    if external:
+        w["external"] = external
+    return w
 
 
 CORPUS = [
     # F10a: data of a lazily-read field placed in a fresh field, written over its source
     {"bases": ["ef0", "ef0"], "read_via": "direct", "fam": "corpus-F10a",
      "ops": [{"op": "new_field"}, {"op": "set_data", "dst": 2, "src": 0, "sel": "field", "how": "direct"}],
-     "write": {"regs": [2], "target": "X", "mode": "w", "overwrite": True, "fault": None}},
+     "write": W([2], "X")},
     # F10a through cfdm.Data(d.source())
     {"bases": ["dsgc", "ef0"], "read_via": "direct", "fam": "corpus-F10a",
      "ops": [{"op": "new_field"}, {"op": "set_data", "dst": 2, "src": 0, "sel": "field", "how": "source"}],
-     "write": {"regs": [2], "target": "X", "mode": "w", "overwrite": True, "fault": None}},
+     "write": W([2], "X")},
     # F10b: read through a symbolic link, written to the file itself
-    {"bases": ["ef0", "ef0"], "read_via": "symlink", "fam": "corpus-F10b",
-     "ops": [{"op": "copy", "i": 0, "variant": "copy"}],
-     "write": {"regs": [2], "target": "X", "mode": "w", "overwrite": True, "fault": None}},
+    {"bases": ["ef0", "ef0"], "read_via": "filelink", "fam": "corpus-F10b",
+     "ops": [{"op": "copy", "i": 0, "variant": "copy"}], "write": W([2], "X")},
     # F10c: lazy bounds of X under a coordinate of a field read from Y
     {"bases": ["ef0", "ef0"], "read_via": "direct", "fam": "corpus-F10c",
      "ops": [{"op": "set_bounds_data", "dst": 1, "src": 0, "j": 0, "j2": 0, "sel": "bounds", "how": "direct"}],
-     "write": {"regs": [1], "target": "X", "mode": "w", "overwrite": True, "fault": None}},
+     "write": W([1], "X")},
     # F10c: a transplanted ragged array whose compressed data are in memory and whose count variable is not
     {"bases": ["dsgc", "ef0"], "read_via": "direct", "fam": "corpus-F10c",
      "ops": [{"op": "new_field"}, {"op": "set_data", "dst": 2, "src": 0, "sel": "field", "how": "direct"},
-             {"op": "touch", "i": 2, "variant": "inner_to_memory"}],
-     "write": {"regs": [2], "target": "X", "mode": "w", "overwrite": True, "fault": None}},
+             {"op": "touch", "i": 2, "variant": "inner_to_memory"}], "write": W([2], "X")},
     {"bases": ["gath", "dsgi"], "read_via": "direct", "fam": "corpus-F10c",
      "ops": [{"op": "new_field"}, {"op": "set_data", "dst": 2, "src": 0, "sel": "field", "how": "copy"},
              {"op": "touch", "i": 2, "variant": "inner_to_memory"}, {"op": "copy", "i": 2, "variant": "copy"}],
-     "write": {"regs": [3], "target": "LX", "mode": "w", "overwrite": True, "fault": None}},
+     "write": W([3], "X", "filelink")},
     {"bases": ["dsgi", "dsgi"], "read_via": "direct", "fam": "corpus-F10c",
      "ops": [{"op": "new_field"}, {"op": "set_data", "dst": 2, "src": 1, "sel": "field", "how": "direct"},
-             {"op": "touch", "i": 2, "variant": "inner_to_memory"}],
-     "write": {"regs": [2], "target": "Y", "mode": "w", "overwrite": True, "fault": None}},
+             {"op": "touch", "i": 2, "variant": "inner_to_memory"}], "write": W([2], "Y")},
     # the direct case of test_write_filename
-    {"bases": ["ef1", "gath"], "read_via": "direct", "fam": "corpus-direct",
-     "ops": [], "write": {"regs": [0], "target": "X", "mode": "w", "overwrite": True, "fault": None}},
+    {"bases": ["ef1", "gath"], "read_via": "direct", "fam": "corpus-direct", "ops": [], "write": W([0], "X")},
     # overwrite disabled, bad format at the same time
     {"bases": ["ef6", "dsgi"], "read_via": "direct", "fam": "corpus-options",
-     "ops": [], "write": {"regs": [1], "target": "X", "mode": "w", "overwrite": False, "fault": "fmt"}},
+     "ops": [], "write": W([1], "X", overwrite=False, fault="fmt")},
     # written elsewhere through a relative spelling of X while reading it
     {"bases": ["gath", "ef0"], "read_via": "relative", "fam": "corpus-direct",
-     "ops": [{"op": "copy", "i": 0, "variant": "transpose"}],
-     "write": {"regs": [2], "target": "Xrel", "mode": "w", "overwrite": True, "fault": None}},
+     "ops": [{"op": "copy", "i": 0, "variant": "transpose"}], "write": W([2], "X", "relative")},
+    # ---- deepening pass -------------------------------------------------------------
+    # seeded change 1: the source reached through a link to the PARENT DIRECTORY
+    {"bases": ["ef0", "ef0"], "read_via": "direct", "fam": "corpus-dirlink",
+     "ops": [{"op": "copy", "i": 0, "variant": "copy"}], "write": W([2], "X", "alias")},
+    {"bases": ["dsgc", "ef0"], "read_via": "alias", "fam": "corpus-dirlink", "ops": [], "write": W([0], "X")},
+    {"bases": ["ef6", "ef0"], "read_via": "scratch", "fam": "corpus-dirlink",
+     "ops": [{"op": "copy", "i": 0, "variant": "squeeze"}], "write": W([2], "X", "alias_scratch")},
+    {"bases": ["ef1", "ef0"], "read_via": "dslash", "fam": "corpus-dirlink", "ops": [], "write": W([0], "X", "dotdot")},
+    {"bases": ["ef0", "gath"], "read_via": "direct", "read_via_y": "alias", "fam": "corpus-dirlink",
+     "ops": [{"op": "new_field"}, {"op": "set_data", "dst": 2, "src": 1, "sel": "field", "how": "direct"}],
+     "write": W([2], "Y", "scratch")},
+    # seeded change 2: overwrite=False must also protect the EXTERNAL file
+    {"bases": ["ef0", "ef1"], "read_via": "direct", "fam": "corpus-external",
+     "ops": [{"op": "make_external", "i": 1, "j": 0, "val": 1}],
+     "write": W([1], "Z", overwrite=False, external={"key": "E", "via": "direct"})},
+    {"bases": ["ef0", "ef1"], "read_via": "direct", "fam": "corpus-external",
+     "ops": [{"op": "make_external", "i": 1, "j": 0, "val": 1}, {"op": "touch", "i": 1, "variant": "cons_to_memory", "j": 5}],
+     "write": W([1], "Z", "alias", overwrite=False, external={"key": "E", "via": "alias_scratch"})},
+    {"bases": ["ef0", "ef1"], "read_via": "direct", "fam": "corpus-external",
+     "ops": [{"op": "make_external", "i": 1, "j": 0, "val": 1}],
+     "write": W([1], "Z", external={"key": "EN", "via": "direct"})},
+    # fix2-2: the external file is one that the construct itself still reads from
+    {"bases": ["ef0", "ef1"], "read_via": "direct", "fam": "corpus-external",
+     "ops": [{"op": "new_field"}, {"op": "set_data", "dst": 2, "src": 0, "sel": "field", "how": "direct"},
+             {"op": "make_external", "i": 2, "new": True, "val": 1}],
+     "write": W([2], "Z", external={"key": "X", "via": "scratch"})},
+    # seeded change 3: geometry variables with different property sets
+    {"bases": ["ef6", "ef0"], "read_via": "direct", "fam": "corpus-asym",
+     "ops": [{"op": "comp_prop", "i": 0, "kind": "interior_ring", "j": 1, "val": 1, "name": "long_name"}],
+     "write": W([0], "Z")},
+    {"bases": ["ef6", "ef0"], "read_via": "direct", "fam": "corpus-asym",
+     "ops": [{"op": "comp_prop", "i": 0, "kind": "node_count", "j": 0, "val": 2, "create": True},
+             {"op": "comp_prop", "i": 0, "kind": "interior_ring", "j": 2, "val": 0, "name": "comment"}],
+     "write": W([0], "X")},
+    {"bases": ["ef6", "ef0"], "read_via": "direct", "fam": "corpus-asym",
+     "ops": [{"op": "comp_prop", "i": 0, "kind": "interior_ring", "j": 0, "val": 1},
+             {"op": "comp_prop", "i": 0, "kind": "interior_ring", "j": 1, "val": 2}],
+     "write": W([0], "Z")},
+    # fix2-1: '..' after a link to a deeper directory, overwrite disabled
+    {"bases": ["ef0", "ef1"], "read_via": "direct", "fam": "corpus-lexical", "ops": [],
+     "write": W([1], "DV", "deep", overwrite=False)},
+    {"bases": ["ef0", "ef1"], "read_via": "direct", "fam": "corpus-lexical", "ops": [],
+     "write": W([0], "X", "deep")},
+    # fix2-3: appending constructs to the file they still read from
+    {"bases": ["ef0", "ef6"], "read_via": "direct", "fam": "corpus-append", "ops": [], "write": W([1], "Y", mode="a")},
+    {"bases": ["ef0", "dsgc"], "read_via": "direct", "read_via_y": "alias", "fam": "corpus-append", "ops": [],
+     "write": W([1], "Y", "scratch", mode="a")},
+    {"bases": ["ef1", "ef0"], "read_via": "direct", "fam": "corpus-append", "ops": [], "write": W([0], "X", "filelink", mode="r+")},
 ]
+
+
+def base_pair(rng, bias=None):
+    if bias and rng.random() < 0.7:
+        return [rng.choice(bias), rng.choice(BASES)]
+    return [rng.choice(BASES), rng.choice(BASES)]
 
 
 def gen_cases(rng, tier):
     thorough = tier == "thorough"
+    k = 4 if thorough else 1
     cases = [dict(c) for c in CORPUS]
+
+    def add(bases, ops, w, fam, via=None):
+        cases.append({"bases": bases, "read_via": via or rng.choice(VIAS_X), "read_via_y": rng.choice(VIAS_Y),
+                      "ops": ops, "write": w, "fam": fam})
+
     # (a) transplants: data of X (field / construct / bounds / ring, bare or re-wrapped) moved
     #     into a fresh field or into the field read from Y, a few derivations either side
-    for _ in range(1800 if thorough else 500):
+    for _ in range(350 * k):
         pre, n = rand_history(rng, 3, 0.0)
         dst_new = rng.random() < 0.5
         ops = list(pre)
@@ -292,26 +432,78 @@ def gen_cases(rng, tier):
         w = rand_write(rng, n, wreg)
         if rng.random() < 0.7:
             w["mode"], w["fault"], w["overwrite"] = "w", None, True
-            w["target"] = rng.choice(["X", "X", "LX", "Xrel", "Y"])
-        cases.append({"bases": [rng.choice(BASES), rng.choice(BASES)],
-                      "read_via": rng.choice(["direct", "direct", "direct", "symlink", "relative"]),
-                      "ops": ops, "write": w, "fam": "transplant"})
+            w["target"], w["tvia"] = rng.choice([("X", rng.choice(TVIAS)), ("X", rng.choice(TVIAS)), ("Y", "alias"), ("Y", "direct")])
+        add(base_pair(rng), ops, w, "transplant")
     # (b) random histories
-    for _ in range(4400 if thorough else 1100):
+    for _ in range(800 * k):
         ops, n = rand_history(rng, 8, 0.12)
-        cases.append({"bases": [rng.choice(BASES), rng.choice(BASES)],
-                      "read_via": rng.choice(["direct", "direct", "direct", "symlink", "relative"]),
-                      "ops": ops, "write": rand_write(rng, n), "fam": "history"})
+        add(base_pair(rng), ops, rand_write(rng, n), "history")
     # (c) options: little or no history, the whole option space, every base kind
-    for _ in range(1800 if thorough else 500):
+    for _ in range(350 * k):
         ops, n = rand_history(rng, 1, 0.0)
         w = rand_write(rng, n)
         w["harmless"] = rng.randrange(N_HARMLESS)
         if rng.random() < 0.5:
-            w["target"] = rng.choice(["Y", "Z", "Z"])  # a write that is allowed to go ahead
+            w["target"], w["tvia"] = rng.choice(["Y", "Z", "Z"]), rng.choice(["direct", "alias", "scratch"])
             w["regs"] = [0]
-        cases.append({"bases": [rng.choice(BASES), rng.choice(BASES)], "read_via": "direct",
-                      "ops": ops, "write": w, "fam": "options"})
+        add(base_pair(rng), ops, w, "options", via="direct")
+    # (d) spellings: the same file named in two ways (links to the file, to a parent directory, to the
+    #     scratch directory, '..', doubled slashes, relative), little history, plain mode-w writes
+    for _ in range(300 * k):
+        ops, n = rand_history(rng, 2, 0.15)
+        reg = rng.choice([0, 0, 0, 1, n - 1])
+        w = {"regs": [reg], "mode": "w", "overwrite": rng.random() < 0.85, "fault": None,
+             "target": "X" if rng.random() < 0.75 else "Y", "tvia": rng.choice(TVIAS)}
+        if w["target"] == "Y" and w["tvia"] == "filelink":
+            w["tvia"] = "alias"
+        add(base_pair(rng), ops, w, "spelling")
+    # (e) external file: a cell measure flagged external (read from a file or made in memory), the
+    #     external file existing / new / a file a construct still reads from, overwrite on and off
+    for _ in range(350 * k):
+        pre, n = rand_history(rng, 2, 0.1)
+        reg = rng.choice([1, 1, 0, n - 1])
+        ops = list(pre)
+        if rng.random() < 0.35:
+            ops += [{"op": "new_field"}, {"op": "set_data", "dst": n, "src": rng.choice([0, 1]), "sel": "field",
+                                         "how": rng.choice(["direct", "copy", "wrapped"])}]
+            reg = n
+            n += 1
+        ops.append({"op": "make_external", "i": reg, "j": rng.randrange(2), "new": rng.random() < 0.5, "val": rng.randrange(3)})
+        if rng.random() < 0.3:
+            ops.append({"op": "touch", "i": reg, "variant": rng.choice(["cons_to_memory", "to_memory"]), "j": rng.randrange(8)})
+        w = {"regs": [reg], "mode": "w" if rng.random() < 0.9 else "a", "overwrite": rng.random() < 0.5, "fault": None,
+             "external": rand_external(rng), "harmless": rng.choice([0, 0, 0, 3, 11])}
+        w["target"], w["tvia"] = rng.choice([("Z", "direct"), ("Z", "alias"), ("Z", "scratch"), ("Y", "direct"),
+                                             ("V", "direct"), ("X", "direct")])
+        add(base_pair(rng, ["ef1"]), ops, w, "external", via=rng.choice(["direct", "alias", "scratch"]))
+    # (f) asymmetric components: ONE node count / part node count / interior ring / bounds / count /
+    #     index / list / cell measure / domain ancillary / coordinate conversion gets a property or a
+    #     netCDF name that its siblings lack, then a write that goes ahead (CF >= 1.8)
+    for _ in range(300 * k):
+        ops, n = [], 2
+        reg = rng.choice([0, 0, 1])
+        geom = rng.random() < 0.5
+        for _k in range(rng.randrange(1, 4)):
+            o = rand_comp_prop(rng, n, reg)
+            if geom:
+                o["kind"] = rng.choice(["interior_ring", "interior_ring", "node_count", "part_node_count"])
+            ops.append(o)
+        if rng.random() < 0.3:
+            ops.append({"op": "copy", "i": reg, "variant": rng.choice(["copy", "squeeze", "deepcopy"])})
+            n += 1
+            if rng.random() < 0.5:
+                ops.append(rand_comp_prop(rng, n, n - 1))
+        regs = [reg] if rng.random() < 0.8 else [reg, n - 1]
+        w = {"regs": regs, "mode": "w", "overwrite": True, "fault": None if rng.random() < 0.9 else rng.choice(LATE_FAULTS),
+             "harmless": rng.choice([0, 0, 0, 1, 3, 7])}
+        w["target"], w["tvia"] = rng.choice([("Z", "direct"), ("Z", "alias"), ("Y" if reg == 0 else "X", "direct"),
+                                             ("X" if reg == 0 else "Y", "direct")])
+        bp = base_pair(rng, ["ef6", "ef6", "dsgc", "dsgi", "gath", "ef1"])
+        if geom:
+            bp[reg] = "ef6"
+            if rng.random() < 0.8:
+                w["target"], w["tvia"] = rng.choice([("Z", "direct"), ("Z", "alias"), ("Y" if reg == 0 else "X", "direct")])
+        add(bp, ops, w, "asymmetric", via="direct")
     for i, c in enumerate(cases):
         c["id"] = i
         if c["ops"] and c["ops"][-1]["op"] == "get_domain":
@@ -320,17 +512,26 @@ def gen_cases(rng, tier):
 
 
 # ---- the property oracle on the implementation ----------------------------------------
-def real_id(n):
-    return 1 if n == 3 else n
+def is_regular(state):
+    return isinstance(state, list) and len(state) == 3 and isinstance(state[0], int)
 
 
-def classify_destroyed(case, r, k):
-    tid = NAME_ID[case["write"]["target"]]
-    orig = set(r["written_aggs"][k][0])
-    if tid in orig:
+def real_keys(r, names):
+    return {r["real_of"].get(str(n), "?") for n in names if isinstance(n, int)}
+
+
+def classify_destroyed(case, r, k, key):
+    t, e = r["target"], r["ext"]
+    if e is not None and key == e["real_key"] and key != t["real_key"]:
+        return "external"
+    if not t["modelable"]:
+        return "lexical"
+    orig = r["written_aggs"][k][0]
+    if t["name"] in orig:
         return "direct"
-    if real_id(tid) in {real_id(n) for n in orig if isinstance(n, int)}:
-        return "symlink"
+    if t["real_key"] in real_keys(r, orig):
+        w = case["write"]
+        return "symlink" if "filelink" in (w.get("tvia"), r["read_via"].split("/")[0]) or w["target"] == "LX" else "dirlink"
     return "transplant"
 
 
@@ -339,64 +540,83 @@ def oracle(chk, case, r):
     w = case["write"]
     bad = False
     inp = {"case": case}
-    eff = dict(effects(r))
-    tid = NAME_ID[w["target"]]
+    eff = effects(r)
+    t, e = r["target"], r["ext"]
+    tkey = t["real_key"]
+    ekey = e["real_key"] if e else None
     mode_w = w["mode"] == "w"
+    obs = {"before": r["before"], "after": r["after"], "error": r["error"], "target": t, "external": e}
     if r["inputs_changed"]:
         bad = True
         parts = sorted({p for ch in r["inputs_changed"] for p in ch["parts"]})
         chk.fail("property", "inputs-changed:" + "+".join(parts)[:60],
                  f"a construct was changed by cfdm.write ({w}): {r['inputs_changed'][0]}"[:500],
                  {"input": inp, "observed": r["inputs_changed"][:3]})
+    if r["geo"]["before"] != r["geo"]["after"]:
+        bad = True
+        chk.fail("property", "inputs-changed:geometry-variable-properties",
+                 "the node count / part node count / interior ring variables of a written construct have "
+                 "different properties after cfdm.write",
+                 {"input": inp, "expected": r["geo"]["before"], "observed": r["geo"]["after"]})
     if r.get("values_bad"):
         bad = True
-        chk.fail("property", "data-unreadable-after-write:" + ("append" if not mode_w else classify_destroyed(case, r, 0)),
+        chk.fail("property", "data-unreadable-after-write:" + ("append" if not mode_w else classify_destroyed(case, r, 0, tkey)),
                  f"after cfdm.write the data of a construct can no longer be read as before: {r['values_bad'][0]}"[:500],
                  {"input": inp, "observed": r["values_bad"][:3], "error": r["error"]})
     if mode_w:
         for k, needed in enumerate(r["needed"]):
-            for n in needed:
-                if isinstance(n, int) and eff.get(real_id(n), 0) != 0:
+            for key in sorted(real_keys(r, needed)):
+                if eff.get(key, 0) != 0:
                     bad = True
-                    chk.fail("property", "needed-file-destroyed:" + classify_destroyed(case, r, k),
-                             f"write(mode='w') to {w['target']} altered file {n} from which the written construct "
-                             f"still has unread data (error: {r['error']})",
-                             {"input": inp, "expected": "ValueError before the file is touched",
-                              "observed": {"before": r["before"], "after": r["after"], "error": r["error"]}})
+                    chk.fail("property", "needed-file-destroyed:" + classify_destroyed(case, r, k, key),
+                             f"write(mode='w') to {t['raw']} (external {e and e['raw']}) altered file {key} from which "
+                             f"the written construct still has unread data (error: {r['error']})",
+                             {"input": inp, "expected": "ValueError before the file is touched", "observed": obs})
                     break
     if r.get("append_lost"):
         bad = True
         chk.fail("property", "append-damaged-existing-variables",
                  f"append changed variables that were in the file: {r['append_lost']}",
                  {"input": inp, "observed": r["append_lost"]})
-    if mode_w and not w.get("overwrite", True) and r["before"][{"Xrel": "X"}.get(w["target"], w["target"])] is not None:
-        if r["error"] is None or any(v != 0 for v in eff.values()):
+    if mode_w and not w.get("overwrite", True):
+        # every file that exists before the call is byte-identical afterwards, whatever its role
+        for key in TRACKED:
+            if is_regular(r["before"][key]) and eff[key] != 0:
+                bad = True
+                role = ("lexical" if not t["modelable"] else "target" if key == tkey else
+                        "external" if key == ekey else "other")
+                chk.fail("property", "no-overwrite-violated:" + role,
+                         f"overwrite=False: existing file {key} ({role}) was altered",
+                         {"input": inp, "expected": "byte-identical", "observed": obs})
+        if is_regular(r["before"].get(tkey)) and r["error"] is None:
             bad = True
-            chk.fail("property", "no-overwrite-violated",
-                     "overwrite=False on an existing file did not leave it intact / did not raise",
-                     {"input": inp, "observed": {"before": r["before"], "after": r["after"], "error": r["error"]}})
+            chk.fail("property", "no-overwrite-violated:target", "overwrite=False on an existing file did not raise",
+                     {"input": inp, "observed": obs})
     if r["error"] is not None and r["fault"][0] != "late" and w["mode"] in ("w", "x"):
-        if any(v != 0 for v in eff.values()):
+        # a refusal / option error leaves every file alone; when an external file was named the
+        # target may already have been written before the external file was refused
+        touched = [key for key in TRACKED if eff[key] != 0 and not (e is not None and key in (tkey, "LX", t["lexical_key"]))]
+        if touched:
             bad = True
             chk.fail("property", "refused-after-touching",
-                     f"the write was refused ({r['error']}) but a file had already been altered",
-                     {"input": inp, "observed": {"before": r["before"], "after": r["after"]}})
+                     f"the write was refused ({r['error']}) but {touched} had already been altered",
+                     {"input": inp, "observed": obs})
     for k, needed in enumerate(r["needed"]):
         if sorted(map(str, needed)) != sorted(map(str, r["written_aggs"][k][1])):
             bad = True
             chk.fail("property", "get_filenames-incomplete",
                      f"get_filenames() = {r['written_aggs'][k][1]} but the construct's arrays are in {needed}",
                      {"input": inp, "expected": needed, "observed": r["written_aggs"][k][1]})
-    # the guard refuses exactly the requests that name a consulted file
-    if mode_w and r["fault"][0] == "none" and (w.get("overwrite", True) or r["before"][{"Xrel": "X"}.get(w["target"], w["target"])] is None):
+    # the guard refuses exactly the requests that name (however spelt) a consulted file
+    if mode_w and e is None and r["fault"][0] == "none" and (w.get("overwrite", True) or not is_regular(r["before"].get(tkey))):
         consulted = set()
         for o_, f_ in r["written_aggs"]:
             consulted.update(x for x in o_ + f_ if isinstance(x, int))
-        expect_refuse = real_id(tid) in {real_id(n) for n in consulted}
-        if (r["error"] is not None) != expect_refuse and not bad:
+        expect_refuse = tkey in real_keys(r, consulted) or t["name"] in consulted
+        if (r["error"] is not None) != expect_refuse and not bad and (t["modelable"] or expect_refuse):
             bad = True
             chk.fail("property", "spurious-refusal" if r["error"] is not None else "guard-did-not-refuse",
-                     f"write to {w['target']} of constructs recorded in {sorted(consulted)}: error {r['error']}",
+                     f"write to {t['raw']} of constructs recorded in {sorted(consulted)}: error {r['error']}",
                      {"input": inp, "expected": "refused" if expect_refuse else "written", "observed": r["error"]})
     return bad
 
@@ -405,7 +625,8 @@ def nontrivial(case, r):
     applied = [s for s in r["steps"] if "op" in s]
     w = case["write"]
     lazy = any(r["needed"]) or any(a[0] for a in r["written_aggs"])
-    return bool(applied) and lazy or w["mode"] != "w" or not w.get("overwrite", True) or bool(w.get("fault"))
+    return (bool(applied) and lazy or w["mode"] != "w" or not w.get("overwrite", True) or bool(w.get("fault"))
+            or w.get("tvia", "direct") != "direct" or bool(w.get("external")))
 
 
 def run_cases(chk, cases):
@@ -425,13 +646,18 @@ def run_cases(chk, cases):
     return rows
 
 
+def bump(d, k):
+    d[k] = d.get(k, 0) + 1
+
+
 def run(chk, model_ok):
     cases = gen_cases(chk.rng, chk.tier)
     rows = run_cases(chk, cases)
-    done, lits, lit_cases = [], [], []
+    done, lits, lit_cases, ilits, ilit_cases = [], [], [], [], []
     stats = {"crash": 0, "driver_error": 0, "refused": 0, "written": 0, "failed_late": 0, "failed_early": 0,
-             "skipped_ops": 0, "applied_ops": 0}
-    fam, opk, modes, targets, faults, hist_len, bases = {}, {}, {}, {}, {}, {}, {}
+             "skipped_ops": 0, "applied_ops": 0, "not_modelable_spelling": 0, "external_file_written": 0,
+             "geometry_variables_asymmetric": 0, "conform_conflict": 0}
+    fam, opk, modes, targets, faults, hist_len, bases, exts, comp_kinds = {}, {}, {}, {}, {}, {}, {}, {}, {}
     for c in cases:
         r = rows.get(c["id"])
         if r is None:
@@ -448,27 +674,45 @@ def run(chk, model_ok):
             continue
         done.append((c, r))
         explained = oracle(chk, c, r)
-        fam[c["fam"]] = fam.get(c["fam"], 0) + 1
+        bump(fam, c["fam"])
         w = c["write"]
-        modes[w["mode"]] = modes.get(w["mode"], 0) + 1
-        targets[w["target"] + "/" + r["read_via"]] = targets.get(w["target"] + "/" + r["read_via"], 0) + 1
-        faults[r["fault"][0]] = faults.get(r["fault"][0], 0) + 1
+        bump(modes, w["mode"])
+        bump(targets, f"{w['target']}:{w.get('tvia', 'direct')}<-{r['read_via']}")
+        bump(faults, r["fault"][0])
+        if r["ext"] is not None:
+            bump(exts, f"{w['external']['key']}:{w['external'].get('via')}:overwrite={w.get('overwrite', True)}")
+            stats["external_file_written"] += bool(r.get("ext_written_by_control"))
         for b in c["bases"]:
-            bases[b] = bases.get(b, 0) + 1
+            bump(bases, b)
         applied = [s for s in r["steps"] if "op" in s]
         stats["applied_ops"] += len(applied)
         stats["skipped_ops"] += len(r["steps"]) - len(applied)
-        hist_len[len(applied)] = hist_len.get(len(applied), 0) + 1
+        bump(hist_len, len(applied))
         for s in applied:
-            opk[s["op"][0]] = opk.get(s["op"][0], 0) + 1
+            bump(opk, s["o"]["op"] if s["op"][0] == "touch" and s["o"]["op"] != "touch" else s["op"][0])
+            if s["o"]["op"] == "comp_prop":
+                bump(comp_kinds, s["o"].get("kind"))
+        for g in r["geo"]["before"]:
+            for col in range(3):
+                vals = [json.dumps(row[col]) for row in g if row[col] is not None]
+                if len(set(vals)) > 1:
+                    stats["geometry_variables_asymmetric"] += 1
+                    break
         if r["error"] is None:
             stats["written"] += 1
         elif r["fault"][0] == "late":
             stats["failed_late"] += 1
+            if r["error"] and "inconsistent propert" in r["error"][2]:
+                stats["conform_conflict"] += 1
         elif r["fault"][0] != "none":
             stats["failed_early"] += 1
         else:
             stats["refused"] += 1
+        ilits.append(ident_literal(c, r))
+        ilit_cases.append((c, r, explained))
+        if not (r["target"]["modelable"] and (r["ext"] is None or r["ext"]["modelable"])):
+            stats["not_modelable_spelling"] += 1
+            continue
         try:
             lits.append(literal(c, r))
             lit_cases.append((c, r, explained))
@@ -478,7 +722,7 @@ def run(chk, model_ok):
 
     ncorr = 0
     if model_ok and lits:
-        bad = lib.coq_bad_indices("C10", REQ, "check_case", lits, chunk=120)
+        bad = lib.coq_bad_indices("C10", REQ, "check_case", lits, chunk=100)
         ncorr = len(lits)
         for i in bad[:40]:
             c, r, explained = lit_cases[i]
@@ -494,42 +738,66 @@ def run(chk, model_ok):
                      {"correspondence": "C10.Run.check_case", "input": {"case": c},
                       "observed": {"steps": [{k: v for k, v in s.items() if k != "tree"} for s in r["steps"]],
                                    "fault": r["fault"], "error": r["error"], "effects": effects(r),
+                                   "target": r["target"], "ext": r["ext"], "efsel": r["efsel"],
                                    "aggs": r["written_aggs"], "needed": r["needed"]}})
+        bad = lib.coq_bad_indices("C10", REQ, "check_ident", ilits, chunk=400)
+        for i in bad[:40]:
+            c, r, explained = ilit_cases[i]
+            if explained:
+                continue
+            chk.fail("correspondence", "model-vs-impl:inputs",
+                     "the writer's treatment of its inputs differs from the model (geometry variable properties "
+                     "after the write, or an inconsistency that the writer did not refuse)",
+                     {"correspondence": "C10.Run.check_ident", "input": {"case": c},
+                      "observed": {"geo": r["geo"], "error": r["error"], "fault": r["fault"]}})
 
-    distinct = {lib.canon([c["bases"], c["read_via"], [s.get("op") for s in r["steps"] if "op" in s], c["write"]])
+    distinct = {lib.canon([c["bases"], c.get("read_via"), c.get("read_via_y"),
+                           [s.get("op") for s in r["steps"] if "op" in s], c["write"]])
                 for c, r in done if nontrivial(c, r)}
     samples = [done[i][0] for i in (0, len(done) // 2, len(done) - 1)] if done else []
     chk.coverage.update({
         "evaluations": len(done),
         "distinct_nontrivial": len(distinct),
         "rule": "a case = two generated base files (6 kinds: plain, geometry with interior ring, DSG contiguous / indexed "
-                "ragged, gathered, many-construct) read lazily (directly, through a symbolic link or by a relative name), "
-                "a derivation history of 0-8 operations applied to the constructs, then one cfdm.write of the result over "
-                "one of the files (or a link to it, a relative spelling, another file, a new file) with mode / overwrite / "
-                "option faults drawn at random; non-trivial = at least one operation applied and the written construct "
-                "still records or needs a file, or the write is not a plain mode-w overwrite; distinct = canonical JSON of "
-                "(bases, read spelling, resolved operations, write)",
+                "ragged, gathered, many-construct with cell measure / domain ancillaries / coordinate references) in a "
+                "directory tree with symbolic links to a file, to its parent directory, to a deeper directory and to the "
+                "scratch directory itself, read lazily under one of 9 spellings; a derivation history of 0-8 operations "
+                "(including properties / netCDF names given to ONE component of a kind and cell measures flagged external); "
+                "then one cfdm.write of the result over one of the files under any spelling (or another file, a new file) "
+                "with mode / overwrite / external file / option faults drawn at random; non-trivial = at least one "
+                "operation applied and the written construct still records or needs a file, or the write is not a plain "
+                "mode-w overwrite of a directly spelt name; distinct = canonical JSON of (bases, read spellings, resolved "
+                "operations, write)",
         "samples": samples,
         "traces_validated_against_impl": ncorr,
-        "disagreements_checked": ncorr,
-        "families": fam, "operations_applied": opk, "modes": modes, "target_by_read_spelling": targets,
+        "disagreements_checked": ncorr + len(ilits) if model_ok else 0,
+        "families": fam, "operations_applied": opk, "modes": modes, "target_spelling_by_read_spelling": targets,
+        "external_requests": exts, "asymmetric_component_kinds": comp_kinds,
         "fault_class_observed": faults, "history_length": {str(k): v for k, v in sorted(hist_len.items())},
         "base_kinds": bases, "outcomes": stats,
         "exhaustive": False,
         "historical_refutations": "C10/Refuted.v: guard before C10-fix-1 refuted by a transplant history (F10a) and by a "
-                                  "symbolic link (F10b); get_filenames() before the fix shown incomplete (F10c)",
+                                  "symbolic link (F10b); get_filenames() before the fix shown incomplete (F10c); real paths "
+                                  "compared only for final-component links, the external file checked against the derived "
+                                  "fields only, overwrite not forwarded to the external write, copy deferred after "
+                                  "conform_geometry_variables: each refuted by a witness",
     })
     chk.assumptions += [
-        "a file is identified by what os.path.realpath gives; symbolic links point at regular files (Spec.wf_fs); hard links "
-        "and links to directories are outside the model (replacing one name of a hard-linked file leaves the other intact)",
+        "a file is identified by its canonical path (what os.path.realpath gives); symbolic links may sit at any component "
+        "of a name and their targets are canonical paths (chains are resolved by the harness); hard links are outside the "
+        "model (replacing one name of a hard-linked file leaves the other intact); a '..' that follows a link to a deeper "
+        "directory is resolved physically by the operating system and is left to the property oracle (no correspondence)",
         "'fails part-way' means a Python exception (bad option value, unwritable value, unknown format); a crash of the process "
         "or of the machine mid-write is outside the model",
         "append mode is content-preserving rather than refused: the check requires that every variable that was in the file is "
         "unchanged and that every lazy array of the inputs still reads the same values",
-        "the writer's handling of its inputs (working on a copy) is checked on the implementation by a structural fingerprint "
-        "of every construct held by the program before and after each write (properties, netCDF names, dtypes, shapes, "
-        "compression type and ancillary variables, laziness and file names), not proved in the model",
+        "the writer's handling of its inputs is proved for the model's program (checks, copy, then every in-place step; "
+        "Ident.v) and tied to the code per run by the observed geometry-variable properties and by a structural fingerprint "
+        "of every construct held by the program before and after each write (properties and netCDF names of every "
+        "component, dtypes, shapes, compression type and ancillary variables, laziness and file names)",
         "every derivation may bring any array into memory (refinement relation of Model.v); which ones do is observed, not modelled",
+        "which external fields the writer derives is predicted by the harness (cell measures flagged external with data and a "
+        "netCDF variable name) and confirmed by a control write to fresh files",
     ]
 
 
